@@ -30,19 +30,20 @@ type spyCall struct {
 
 // spyAdapter sits between one actor and the real table-engine adapter.
 type spyAdapter struct {
-	inner    actor.Adapter
-	name     string
-	mu       sync.Mutex
-	dmu      sync.Mutex
-	calls    []spyCall
-	delivery int64 // current delivery number (set while UpdateTableState runs)
-	ndeliv   int64
-	onUpdate func(sp *spyAdapter, t *pt.Table, n int64) // before delivering
-	after    func(sp *spyAdapter, t *pt.Table, n int64, calls []spyCall)
+	inner     actor.Adapter
+	name      string
+	mu        sync.Mutex
+	dmu       sync.Mutex
+	calls     []spyCall
+	delivery  int64 // current delivery number (set while UpdateTableState runs)
+	ndeliv    int64
+	onUpdate  func(sp *spyAdapter, t *pt.Table, n int64) // before delivering
+	after     func(sp *spyAdapter, t *pt.Table, n int64, calls []spyCall)
 	copyFirst bool // freeze the view before judging and delivering it
 	noForward bool // do not forward actions to the engine (fake adapter for synthetic states)
 	gs        *pokerface.GameState
 	idx       int
+	inCall    func(act string) // runs inside an action call before it returns (what a table does meanwhile)
 }
 
 func (s *spyAdapter) SetActor(a actor.Actor) {
@@ -56,6 +57,9 @@ func (s *spyAdapter) rec(pid, act string, chips int64, fn func() error) error {
 	at := h.Mono() // when the runner issued the call (the engine may publish the next state before the call returns)
 	if !s.noForward && fn != nil {
 		err = fn()
+	}
+	if s.inCall != nil {
+		s.inCall(act)
 	}
 	c := spyCall{Actor: s.name, PID: pid, Act: act, Chips: chips, Mono: at, During: atomic.LoadInt64(&s.delivery)}
 	if err != nil {
@@ -116,18 +120,30 @@ func (s *spyAdapter) GetGameState() *pokerface.GameState {
 	}
 	return s.inner.GetGameState()
 }
-func (s *spyAdapter) Pass(p string) error  { return s.rec(p, "pass", 0, func() error { return s.inner.Pass(p) }) }
-func (s *spyAdapter) Ready(p string) error { return s.rec(p, "ready", 0, func() error { return s.inner.Ready(p) }) }
+func (s *spyAdapter) Pass(p string) error {
+	return s.rec(p, "pass", 0, func() error { return s.inner.Pass(p) })
+}
+func (s *spyAdapter) Ready(p string) error {
+	return s.rec(p, "ready", 0, func() error { return s.inner.Ready(p) })
+}
 func (s *spyAdapter) Pay(p string, c int64) error {
 	return s.rec(p, "pay", c, func() error { return s.inner.Pay(p, c) })
 }
-func (s *spyAdapter) Check(p string) error { return s.rec(p, "check", 0, func() error { return s.inner.Check(p) }) }
+func (s *spyAdapter) Check(p string) error {
+	return s.rec(p, "check", 0, func() error { return s.inner.Check(p) })
+}
 func (s *spyAdapter) Bet(p string, c int64) error {
 	return s.rec(p, "bet", c, func() error { return s.inner.Bet(p, c) })
 }
-func (s *spyAdapter) Call(p string) error  { return s.rec(p, "call", 0, func() error { return s.inner.Call(p) }) }
-func (s *spyAdapter) Fold(p string) error  { return s.rec(p, "fold", 0, func() error { return s.inner.Fold(p) }) }
-func (s *spyAdapter) Allin(p string) error { return s.rec(p, "allin", 0, func() error { return s.inner.Allin(p) }) }
+func (s *spyAdapter) Call(p string) error {
+	return s.rec(p, "call", 0, func() error { return s.inner.Call(p) })
+}
+func (s *spyAdapter) Fold(p string) error {
+	return s.rec(p, "fold", 0, func() error { return s.inner.Fold(p) })
+}
+func (s *spyAdapter) Allin(p string) error {
+	return s.rec(p, "allin", 0, func() error { return s.inner.Allin(p) })
+}
 func (s *spyAdapter) Raise(p string, c int64) error {
 	return s.rec(p, "raise", c, func() error { return s.inner.Raise(p, c) })
 }
@@ -174,7 +190,9 @@ func legalAmount(gs *pokerface.GameState, gp int, c spyCall) string {
 func c18ConcurrentDelivery(c *h.Ctx) {
 	r := c.R
 	br := actor.NewBotRunner("me")
-	sp := &spyAdapter{noForward: true, name: "me", idx: 0}
+	// the adapter's own idea of the bot's hand entry is deliberately useless (-1: its latest table is from between
+	// hands, as happens when deliveries overtake each other): a bot goes by the view it was handed
+	sp := &spyAdapter{noForward: true, name: "me", idx: -1}
 	a := actor.NewActor()
 	a.SetAdapter(sp)
 	a.SetRunner(br)
@@ -278,7 +296,10 @@ func c18Run(c *h.Ctx) {
 		c.Violate(sig, detail, w)
 	}
 	var asked, silent, redeliv int64
-	type seenKey struct{ gid string; at int64 }
+	type seenKey struct {
+		gid string
+		at  int64
+	}
 	rig := h.NewRigBackend()
 	rig.DeckFn = h.SeededDeck(newRand(r.Int63()))
 	var s *h.Sim
